@@ -40,7 +40,7 @@ class Contract:
                  name=None, notes='', trusted=False, body=None, stop_at_loop_exit=None, end_ensures=None,
                  calls=None, level='P', ghost=None, yields=None, rely=None, inline_src=None,
                  skip_frame=False, at_exit=(), fields=None, ghost_requires=(), ghost_sets=None,
-                 start_after_loop=None, stop_after_loop=None, heap_consts=False, solver_ms=0):
+                 start_after_loop=None, stop_after_loop=None, heap_consts=False, solver_ms=0, yield_type=None, yield_counter=None):
         self.target = target
         self.file, self.qualname = target.split('::') if '::' in target else (None, target)
         self.params = dict(params or {})
@@ -65,7 +65,7 @@ class Contract:
         self.calls = dict(calls or {})          # call-site resolution overrides: source text of callee expr -> contract name
         self.level = level
         self.ghost = dict(ghost or {})
-        self.yields = yields
+        self.yields = yields if isinstance(yields, dict) else ([yields] if isinstance(yields, str) else list(yields or []))
         self.rely = rely
         self.inline_src = inline_src
         self.skip_frame = skip_frame
@@ -76,6 +76,8 @@ class Contract:
         # contract.locals, start_assume as precondition) and ends right after loop `stop_after_loop`, where end_ensures is proved
         self.heap_consts = heap_consts
         self.solver_ms = solver_ms
+        self.yield_type = yield_type          # generators: type of the yielded values
+        self.yield_counter = yield_counter    # ghost global incremented at every yield
         self.start_after_loop = start_after_loop
         self.stop_after_loop = stop_after_loop
         self.end_ensures = [end_ensures] if isinstance(end_ensures, str) else list(end_ensures or [])   # ghost global name -> expression (over old state) it is set to by a call
